@@ -29,6 +29,9 @@ type c12Entry struct {
 	wire func(s c12Step) [][]string
 	// skip: the step is not executed in the current state (blocking pops on empty lists).
 	skip func(e *c12Env, s c12Step) bool
+	// scriptedOnly: the command is missing in miniredis; it is generated only inside
+	// scripted steps (both servers answer with a scripted reply instead of executing)
+	scriptedOnly bool
 }
 
 var (
@@ -53,6 +56,9 @@ func c12Finish() {
 		w := c12Table[n].weight
 		if w == 0 {
 			w = 2
+		}
+		if c12Table[n].scriptedOnly {
+			continue
 		}
 		for i := 0; i < w; i++ {
 			c12Weighted = append(c12Weighted, n)
